@@ -106,11 +106,17 @@ def input_untouched(ctx, o, eff: Effects):
                     if nm in vnames:
                         o.site(calc, par, f"{nm}({inp})")
                         continue
+                    if _harmless_consumer(par):
+                        o.site(calc, par, f"{src(par.func)}(.. {inp} ..): reads only")
+                        continue
                     o.refute(calc, par, par, f"the input WBS is handed to `{src(par.func)}`, which is not one of the pure validators: "
                                              f"the scheduler must only work on the clone")
                     continue
                 if isinstance(par, ast.Attribute) and par.attr == 'clone':
                     o.site(calc, par, f"{inp}.clone()")
+                    continue
+                if isinstance(par, ast.FormattedValue) or (isinstance(par, ast.Compare) and all(isinstance(op, (ast.Is, ast.IsNot)) for op in par.ops)):
+                    o.site(calc, par, f"{inp} formatted / compared by identity: reads only")
                     continue
                 o.refute(calc, n, par if par is not None else n, f"the input WBS is used as `{src(par) if par is not None else inp}`: only validation and clone() are allowed")
         if isinstance(n, ast.Name):
@@ -129,6 +135,20 @@ def input_untouched(ctx, o, eff: Effects):
                     o.undecided(vf, vf.node, f"{unmangle(k[0])}@{k[1]}", "validator write with undetermined receiver: " + ' -> '.join(eff.explain(vf, k)[-2:]))
             else:
                 o.site(vf, vf.node, "writes*(validator) has nothing reachable from its argument")
+
+
+def _harmless_consumer(call):
+    """print(..) / len(..) / str(..) / logging calls: functions outside the package that only read their arguments"""
+    fn = call.func
+    if isinstance(fn, ast.Name) and fn.id in ('print', 'len', 'str', 'repr', 'id', 'isinstance', 'type', 'bool'):
+        return True
+    if isinstance(fn, ast.Attribute) and fn.attr in ('debug', 'info', 'warning', 'error', 'log', 'exception', 'critical'):
+        v = fn.value
+        if isinstance(v, ast.Name) and v.id.lower().strip('_') in ('logging', 'logger', 'log'):
+            return True
+        if isinstance(v, ast.Call) and isinstance(v.func, ast.Attribute) and v.func.attr == 'getLogger':
+            return True
+    return False
 
 
 def _parent_of(root, node):
@@ -164,6 +184,20 @@ def frame(ctx, o, eff: Effects):
                     o.site(f, f.node, "memo list")
                     continue
                 chain = ' -> '.join(eff.explain(f, (fld, root))[-2:])
+                if fld == '<dynamic>':
+                    # setattr(obj, name, value): decided when every setattr of this function names one of the four data fields
+                    from .c07 import _stores_elementwise
+                    dyn = [n for n in walk_no_nested(f.node) if isinstance(n, ast.Call) and isinstance(n.func, ast.Name) and n.func.id == 'setattr']
+                    named = {id(st.value) for st, tgt, val in _stores_elementwise(f) if isinstance(st, ast.Expr) and tgt.attr in ('start', 'end', 'estimate', 'spent')}
+                    wrong = [tgt.attr for st, tgt, val in _stores_elementwise(f) if isinstance(st, ast.Expr) and tgt.attr not in ('start', 'end', 'estimate', 'spent')]
+                    if dyn and not wrong and all(id(n) in named for n in dyn):
+                        o.site(f, f.node, "setattr over the data fields start/end/estimate/spent")
+                    elif wrong:
+                        o.refute(f, f.node, f"setattr {wrong[0]}@{root}", f"the scheduler sets `{wrong[0]}` through setattr ({root}): only start/end/"
+                                                                         f"estimate/spent of the clone's tasks may change")
+                    else:
+                        o.undecided(f, f.node, f"<dynamic>@{root}", f"setattr with a name the rule cannot resolve: {chain}")
+                    continue
                 if fld.startswith('_Task__') or fld in ('_list', '<dynamic>') or 'param:' in root or root == 'self':
                     o.refute(f, f.node, f"{unmangle(fld)}@{root}", f"the scheduler writes `{unmangle(fld)}` ({root}): {chain}; only start/end/estimate/"
                                                                    f"spent of the clone's tasks may change")
@@ -191,11 +225,15 @@ def fresh(ctx, o, eff: Effects):
             led, memo = ex.expand(c.args[2]), ex.expand(c.args[3])
             if match("_ResourceUsage()", led):
                 o.site(calc, c, "ledger = _ResourceUsage() local to calc")
+            elif isinstance(led, ast.Name) and led.id not in calc.params and flow_of(calc).defs_of(led.id):
+                o.undecided(calc, c, c.args[2], f"the ledger handed to the pass is the local `{led.id}`, which could not be resolved to one allocation")
             else:
                 o.refute(calc, c, c.args[2], f"the ledger handed to the pass is `{src(led)}`, not a ledger allocated by this call: bookings of "
                                              f"an earlier calc leak into this one")
             if match("[]", memo) or match("list()", memo) or match("set()", memo):
                 o.site(calc, c, "memo local to calc")
+            elif isinstance(memo, ast.Name) and memo.id not in calc.params and flow_of(calc).defs_of(memo.id):
+                o.undecided(calc, c, c.args[3], f"the memo handed to the pass is the local `{memo.id}`, which could not be resolved to one allocation")
             else:
                 o.refute(calc, c, c.args[3], f"the memo handed to the pass is `{src(memo)}`, not a list allocated by this call: tasks scheduled "
                                              f"by an earlier calc are skipped")
@@ -322,10 +360,48 @@ def clock_guard(ctx, o):
             occurrences.append(n)
     for n in occurrences:
         par = _parent_of(f.node, n)
-        if not (isinstance(par, ast.Call) and isinstance(par.func, ast.Name) and par.func.id == 'max' and n in par.args):
+        others = None
+        if isinstance(par, ast.Call) and isinstance(par.func, ast.Name) and par.func.id == 'max' and n in par.args:
+            others = [a for a in par.args if a is not n]
+        elif isinstance(par, (ast.List, ast.Tuple)):
+            # `bounds = [.., now(), ..]` (possibly grown afterwards) consumed only by max(bounds): the other elements are the other operands
+            top = par
+            while isinstance(_parent_of(f.node, top), ast.BinOp) and isinstance(_parent_of(f.node, top).op, ast.Add):
+                top = _parent_of(f.node, top)
+            holder = _parent_of(f.node, top)
+            if isinstance(holder, ast.Call) and isinstance(holder.func, ast.Name) and holder.func.id == 'max' and holder.args == [top]:
+                others = [e for e in facts.flatten_lattice(holder, 'max') or [] if e is not n]
+                par = holder
+            elif isinstance(holder, ast.Assign) and len(holder.targets) == 1 and isinstance(holder.targets[0], ast.Name) and holder.value is top:
+                lname = holder.targets[0].id
+                uses = [x for x in walk_no_nested(f.node) if isinstance(x, ast.Name) and x.id == lname and isinstance(x.ctx, ast.Load)]
+                maxes = []
+                fine = len(ps.fl.defs_of(lname)) == 1
+                for u in uses:
+                    up = _parent_of(f.node, u)
+                    if isinstance(up, ast.Call) and isinstance(up.func, ast.Name) and up.func.id == 'max' and up.args == [u]:
+                        maxes.append(up)
+                    elif isinstance(up, ast.Attribute) and up.attr in ('append', 'extend') and isinstance(_parent_of(f.node, up), ast.Call):
+                        continue
+                    else:
+                        fine = False
+                if fine and maxes:
+                    others = [e for e in (facts.flatten_lattice(ast.Call(func=ast.Name(id='max', ctx=ast.Load()), args=[top], keywords=[]), 'max') or [])
+                              if e is not n]
+                    par = maxes[0]
+            if others is None:
+                o.undecided(f, n, par, "clock read stored in a sequence whose uses the rule cannot follow to a max()")
+                continue
+        elif isinstance(par, ast.Call) and isinstance(par.func, ast.Name) and par.func.id == 'min':
+            o.refute(f, n, par, "clock read inside a min(): the result depends on the clock even before the project start")
+            continue
+        elif isinstance(par, ast.Call) and not (isinstance(par.func, ast.Name) and par.func.id == 'max') and \
+                not (isinstance(par.func, ast.Attribute) and isinstance(par.func.value, ast.Name) and par.func.value.id == f.params[0]):
+            o.undecided(f, n, par, f"clock read handed to `{src(par.func)[:40]}`: cannot tell whether a term >= project start dominates it")
+            continue
+        else:
             o.refute(f, n, par if par is not None else n, "clock read outside a max(): the result depends on the clock even before the project start")
             continue
-        others = [a for a in par.args if a is not n]
         guarded = False
         pe_has_bound = pt is not None and any(isinstance(x, ast.Name) and x.id == ps.bound for x in pt['args'])
         for a in others:
